@@ -611,6 +611,8 @@ func (w *World) exec(op *Op) {
 		w.opBulk(op)
 	case "rootcheck":
 		w.opRootCheck(op)
+	case "rebf":
+		w.opReBF(op)
 	default:
 		// unknown op kinds are ignored (forward compatibility of replay files)
 	}
